@@ -198,6 +198,9 @@ func c06Case(r *core.Run, idx int, rng *rand.Rand) {
 	}
 	e, call := c.run(rng, func(e *env.Env) {
 		e.W.NilForUnknown = rng.Intn(2) == 0
+		if idx%5 == 2 {
+			withUnaskedNames(e, r)
+		}
 		if !keyFault {
 			return
 		}
